@@ -29,6 +29,21 @@ fn c13_pair(rep: &Report, b: &Bench, src: &[u8]) {
         let off = b.run(src, Mode::Build, false, false);
         c13_compare(rep, b, src, &on, &off, "final pass");
         rep.tv(4);
+        // switching the option between two runs takes effect (the second run is the only-if-needed mode)
+        let on_ref = b.run(src, Mode::Build, true, true);
+        let off_ref = b.run(src, Mode::Build, true, false);
+        for (first_tn, second) in [(true, &off_ref), (false, &on_ref)] {
+            let _ = b.run(src, Mode::Build, true, first_tn);
+            let r = b.run_no_reset(Mode::InMemoryBuild, true, !first_tn);
+            rep.tv(2);
+            if r.v.kind() != second.v.kind() || (r.v == V::Ok && r.out != second.out) {
+                rep.violate(
+                    "option-switch-ignored",
+                    format!("source {:?}: built with the option {}, then --needed with it {}: output {:?}, a build with that setting writes {:?}", show(src), if first_tn { "on" } else { "off" }, if first_tn { "off" } else { "on" }, r.out.as_ref().map(|x| show(x)), second.out.as_ref().map(|x| show(x))),
+                    rj("C13", src, json!({"switch": first_tn})),
+                );
+            }
+        }
     }
 }
 
